@@ -173,6 +173,11 @@ def run(res, tier):
                     break
         # final phase space must exist at the final time in both
         tf = max(rec["/PhaseSpace/data"]) if rec["/PhaseSpace/data"] else None
+        # ... and "after N steps" is the same N whatever the cadence: the run ends at the same time as the run that writes every step
+        tref = max(ref["/PhaseSpace/data"]) if isinstance(ref.get("/PhaseSpace/data"), dict) and ref["/PhaseSpace/data"] else None
+        if tf != tref:
+            res.violate("C12/final-time-depends-on-observation/outstep=%s" % ("0" if c["outstep"] == 0 else ">0"), case, "the run ends at t=%s, the run that writes every step at t=%s" % (tf, tref),
+                        replay=dict(cmd=r["cmd"], reference=" ".join(map(str, args_of(refs[k], trackfile)))))
         finals.setdefault(k, set()).add(rec["/PhaseSpace/data"].get(tf))
         # (2) the repetition is bitwise identical in every physics dataset (incl. particles)
         if rep == 0:
